@@ -406,6 +406,9 @@ func (e *Enc) applyContract(fr *Frame, st *State, c *Contract, args []*Val, rt t
 			e.unsupportedf("ensures of %s: %v", c.Key, err)
 			continue
 		}
+		if en.Trusted && e.dry == 0 {
+			e.assumedUsed["trusted ensures of "+c.Key]++
+		}
 		e.assume(st, g)
 	}
 	return res
